@@ -104,7 +104,10 @@ def check_key_helper(
     """Checks key and add key_prefix."""
     if allow_unicode_keys:
         if isinstance(key, str):
-            key = key.encode("utf8")
+            try:
+                key = key.encode("utf8")
+            except UnicodeEncodeError:
+                raise MemcacheIllegalInputError("Non-UTF-8 key: %r" % key)
     elif isinstance(key, str):
         try:
             key = key.encode("ascii")
